@@ -8,7 +8,9 @@ those bodies changes Gen/RegistryCode.v and breaks that proof obligation, not on
 
 Fail-closed: any statement, expression or receiver outside the recognised shapes aborts the generation with
 `unrecognised shape`.  Normalisations (meaning-preserving): docstrings, comments, annotations and `pass` vanish;
-`list(d.values())` is `d.values()`; `a is not b` is `not (a is b)`; `k not in d` is `not (k in d)`; `elif` is a nested if;
+`list(d.values())` / `tuple(d.values())` is `d.values()`; a local bound to `self.allobjects` is the registry;
+`f'{s} {i}'` is `s + ' ' + str(i)`; `x = next(n for n in itertools.count() if C(n))` is `x = 0; while not C(x): x += 1`;
+`not not c` is `c`; `a is not b` is `not (a is b)`; `k not in d` is `not (k in d)`; `elif` is a nested if;
 `if c: ...; return` followed by more statements is `if c: ... else: <the rest>`; a chained assignment is a sequence;
 an assignment to `.parentMod` (not modelled) is dropped; the message arguments of report()/raise are ignored;
 local variables are numbered in order of first use (their names do not matter)."""
@@ -54,6 +56,7 @@ class Fn:
         self.local_funcs = set(local_funcs)
         self.vars = {}
         self.bound = set()
+        self.reg_aliases = set()                # locals bound to the registry (`registry = self.allobjects`)
         a = fn.args
         if a.vararg or a.kwarg or a.kwonlyargs or a.posonlyargs or a.defaults:
             bad('parameter list of %s' % fn.name, fn)
@@ -93,7 +96,17 @@ class Fn:
         return (isinstance(e, ast.Attribute) and e.attr == 'system' and isinstance(e.value, ast.Name) and e.value.id == 'self')
 
     def is_registry(self, e):
-        return isinstance(e, ast.Attribute) and e.attr == 'allobjects' and self.is_system(e.value)
+        if isinstance(e, ast.Name) and e.id in self.reg_aliases:
+            return True
+        if isinstance(e, ast.Attribute) and e.attr == 'allobjects':
+            if self.is_system(e.value):
+                return True
+            # <object local>.system.allobjects : every Documentable of a run has the same System
+            v = e.value
+            if (isinstance(v, ast.Attribute) and v.attr == 'system' and isinstance(v.value, ast.Name)
+                    and v.value.id in self.bound and not (v.value.id == 'self' and self.kind != 'object')):
+                return True
+        return False
 
     def obj(self, e):
         """an expression denoting a Documentable (or None): a local, or <obj>.parent"""
@@ -135,11 +148,19 @@ class Fn:
                     and not r.keywords):
                 return 'ESuffix (%s) (%s)' % (self.expr(l.left), self.expr(r.args[0]))
             bad('string concatenation', e)
+        if isinstance(e, ast.JoinedStr):
+            # f'{<s>} {<i>}'  ==  <s> + ' ' + str(<i>)
+            v = e.values
+            if (len(v) == 3 and isinstance(v[0], ast.FormattedValue) and isinstance(v[2], ast.FormattedValue)
+                    and isinstance(v[1], ast.Constant) and v[1].value == ' '
+                    and all(x.conversion == -1 and x.format_spec is None for x in (v[0], v[2]))):
+                return 'ESuffix (%s) (%s)' % (self.expr(v[0].value), self.expr(v[2].value))
+            bad('f-string', e)
         if isinstance(e, ast.Subscript) and self.is_registry(e.value):
             return 'EAllGet (%s)' % self.expr(e.slice)
         if isinstance(e, ast.Call) and not e.keywords:
             f = e.func
-            if isinstance(f, ast.Name) and f.id == 'list' and len(e.args) == 1:
+            if isinstance(f, ast.Name) and f.id in ('list', 'tuple') and len(e.args) == 1:
                 inner = self.expr(e.args[0])
                 if not inner.startswith('EContentsValues'):
                     bad('list() of something other than contents.values()', e)
@@ -161,7 +182,7 @@ class Fn:
 
     def cond(self, e):
         if isinstance(e, ast.UnaryOp) and isinstance(e.op, ast.Not):
-            return 'CNot (%s)' % self.cond(e.operand)
+            return self.neg(self.cond(e.operand))
         if isinstance(e, ast.BoolOp) and isinstance(e.op, ast.And):
             r = self.cond(e.values[-1])
             for v in reversed(e.values[:-1]):
@@ -186,6 +207,47 @@ class Fn:
         if isinstance(e, (ast.Name, ast.Attribute)):
             return 'CTruthy (%s)' % self.obj(e)
         bad('condition', e)
+
+    @staticmethod
+    def neg(c):
+        """not c, with a double negation removed"""
+        if c.startswith('CNot (') and c.endswith(')'):
+            depth = 0
+            for k, ch in enumerate(c[5:]):
+                depth += ch == '('
+                depth -= ch == ')'
+                if depth == 0:
+                    if k == len(c) - 6:
+                        return c[6:-1]
+                    break
+        return 'CNot (%s)' % c
+
+    def first_free(self, target, v, s):
+        """x = next(n for n in itertools.count() if C(n))   ==   x = 0; while not C(x): x += 1"""
+        g = v.args[0]
+        c = g.generators[0]
+        n = c.target.id
+        if not (isinstance(g.elt, ast.Name) and g.elt.id == n and len(c.ifs) == 1 and not c.is_async
+                and isinstance(c.iter, ast.Call) and not c.iter.args and not c.iter.keywords
+                and ast.unparse(c.iter.func) in ('itertools.count', 'count')):
+            bad('generator of next()', s)
+        x = self.var(target)
+        saved = self.vars.get(n)
+        if n in self.bound and n != target:
+            bad('generator variable shadows a local', s)
+        self.vars[n] = self.vars[target]
+        self.bound.add(n)
+        self.bound.add(target)
+        try:
+            test = self.cond(c.ifs[0]).replace('v_%s_%s' % (self.short, n), x)
+        finally:
+            self.bound.discard(n)
+            if saved is None:
+                del self.vars[n]
+            else:
+                self.vars[n] = saved
+        self.bound.add(target)
+        return 'SSeq (SAssign %s (EInt 0)) (SWhile (%s) (SIncr %s))' % (x, self.neg(test), x)
 
     # ---- statements
     @staticmethod
@@ -222,6 +284,8 @@ class Fn:
         return self.seq(out)
 
     def assign_target(self, t, value_expr, value_node, s):
+        if isinstance(t, ast.Name) and t.id in self.reg_aliases:
+            bad('assignment to a registry alias', s)
         if isinstance(t, ast.Name):
             out = 'SAssign %s (%s)' % (self.var(t.id), value_expr)
             self.bound.add(t.id)
@@ -259,6 +323,18 @@ class Fn:
                 out = 'SSetDefault %s (%s) (%s)' % (self.var(targets[0].id), k, w)
                 self.bound.add(targets[0].id)
                 return out
+            # registry = self.allobjects : the local is another name of the registry (never a value of the language)
+            if self.is_registry(v) and len(targets) == 1 and isinstance(targets[0], ast.Name):
+                if targets[0].id in self.vars:
+                    bad('registry alias reuses a local', s)
+                self.reg_aliases.add(targets[0].id)
+                return None
+            # x = next(n for n in itertools.count() if C(n))
+            if (isinstance(v, ast.Call) and isinstance(v.func, ast.Name) and v.func.id == 'next' and len(v.args) == 1
+                    and not v.keywords and isinstance(v.args[0], ast.GeneratorExp) and len(v.args[0].generators) == 1
+                    and isinstance(v.args[0].generators[0].target, ast.Name)
+                    and len(targets) == 1 and isinstance(targets[0], ast.Name)):
+                return self.first_free(targets[0].id, v, s)
             ve = self.expr(v)
             if len(targets) > 1 and not isinstance(v, (ast.Name, ast.Constant)):
                 bad('chained assignment of a non-trivial value', s)
@@ -362,6 +438,11 @@ def generate() -> dict:
             if lf.decorator_list:
                 bad('decorated local function', lf)
             g = Fn(lf, 'readd', 'local', [a.arg for a in lf.args.args], local_names)
+            # the closure sees the registry aliases of the enclosing function
+            for st in body:
+                if (isinstance(st, ast.Assign) and len(st.targets) == 1 and isinstance(st.targets[0], ast.Name)
+                        and ast.unparse(st.value) == 'self.allobjects'):
+                    g.reg_aliases.add(st.targets[0].id)
             if len(g.params) != 1:
                 bad('local function of handleDuplicate must take one object', lf)
             g.text = g.block(lf.body, tail=True)
